@@ -240,6 +240,10 @@ def menu(fmt):
     add("T11.offset", "light.offset=0", lambda s: find(s, "lights", 11).__setitem__("offset", 0))
     add("T11.offset", "light.offset=7", lambda s: find(s, "lights", 11).__setitem__("offset", 7))
     add("T11.active", "light.active=False", lambda s: find(s, "lights", 11).__setitem__("active", False))
+    if fmt == "pb":     # the 2020a XML schema requires a cycle with at least one element; the .proto has a repeated (possibly empty) element list
+        add("T11.cycle", "light.cycle=no-elements", lambda s: find(s, "lights", 11).update(cycle=[]))
+        add("T11.cycle", "light.cycle=no-elements,active=True(setter)", lambda s: find(s, "lights", 11).update(cycle=[], active_set_later=True))
+    add("T11.active", "light.active=False-then-True(setter)", lambda s: find(s, "lights", 11).update(active=False, active_set_later=True))
     add("T11.cycle", "light.cycle=1-element", lambda s: find(s, "lights", 11).__setitem__("cycle", [("GREEN", 5)]))
     add("I20.crossings", "intersection.crossings=[]", lambda s: find(s, "intersections", 20).__setitem__("crossings", []))
     add("I20.incomings", "intersection.incomings=2+left_of", lambda s: find(s, "intersections", 20)["incomings"].append({"id": 22, "lanelets": [3], "right": [2], "straight": [], "left": [], "left_of": 21}))
@@ -293,6 +297,20 @@ def menu(fmt):
     add("O34.shape", "environment.shape=ulp-twin-of-goal-polygon", lambda s: find(s, "obstacles", 34).__setitem__(
         "shape", ["poly", [[20.5, up(0.125)], [30.75, 0.5], [41.0, 1.0], [41.0, 4.5], [30.75, 4.0], [20.5, 3.625]]]))
     add("O31.pred.shape", "trajectory-prediction.shape=ulp-twin-of-obstacle-shape", lambda s: find(s, "obstacles", 31)["prediction"].__setitem__("shape", ["rect", 4.5, 2.0, up(0.0), 0.0, 0.0]))
+    # shared instances: the SAME shape object used in two places of one scenario (a writer that caches per object, or moves nodes, must still
+    # write both places)
+    def share(s, key, shape, places):
+        for setter in places:
+            setter(s, ["ref", key, copy.deepcopy(shape)])
+    add("alias", "shared-instance:occupancy-shapes", lambda s: share(s, "A", ["rect", 3.0, 2.0, 26.0, 2.5, 0.25], [
+        lambda s, v: find(s, "obstacles", 32)["prediction"]["occ"][0].__setitem__("shape", v), lambda s, v: find(s, "obstacles", 33)["prediction"]["occ"][0].__setitem__("shape", v),
+        lambda s, v: find(s, "obstacles", 33)["prediction"]["occ"][1].__setitem__("shape", v)]))
+    add("alias", "shared-instance:obstacle-shapes", lambda s: share(s, "B", ["rect", 4.5, 2.0, 0.0, 0.0, 0.0], [
+        lambda s, v: find(s, "obstacles", 30).__setitem__("shape", v), lambda s, v: find(s, "obstacles", 31).__setitem__("shape", v),
+        lambda s, v: find(s, "obstacles", 31)["prediction"].__setitem__("shape", v)]))
+    add("alias", "shared-instance:goal-position+environment-shape+uncertain-position", lambda s: share(s, "C", ["rect", 4.0, 2.0, 38.0, 2.5, 0.0625], [
+        lambda s, v: s["pps"][0]["goal"]["states"][0]["attrs"].__setitem__("position", v), lambda s, v: find(s, "obstacles", 34).__setitem__("shape", v),
+        lambda s, v: find(s, "obstacles", 31)["prediction"]["states"][1]["attrs"].__setitem__("position", v)]))
     add("O32.occ1.t", "occupancy.time_step=interval", lambda s: find(s, "obstacles", 32)["prediction"]["occ"][1].__setitem__("t", ["iv", 2, 4]))
     add("O33.occ", "phantom.occupancies=1", lambda s: find(s, "obstacles", 33)["prediction"].__setitem__("occ", find(s, "obstacles", 33)["prediction"]["occ"][:1]))
 
@@ -329,6 +347,14 @@ def menu(fmt):
                 na = {"time_step": a["time_step"], "position": a["position"], "orientation": a["orientation"], "velocity": a["velocity"]}
                 na.update(extra)
                 st["attrs"] = na
+    # every optional state attribute on its own, on a state that matches no specific state class (the readers' generic path)
+    single = dict(traj_classes["MBState"]); single.update({"acceleration": 0.5, "jerk": 0.125, "curvature": 0.01, "curvature_rate": 0.002, "slip_angle": -0.01})
+    if fmt == "xml":
+        single["jounce"] = 0.25         # in the 2020a schema, not in the .proto
+    for a, v in sorted(single.items()):
+        if a in ("steering_angle",):
+            continue        # base attributes + steering angle is KSState
+        add("O31.traj.cls", f"trajectory.state=Custom+{a}", lambda s, a=a, v=v: set_traj_class(s, "CustomState", {a: v}))
     for cls, extra in traj_classes.items():
         if extra is None:
             continue
@@ -386,6 +412,9 @@ def menu(fmt):
 def conflicts(a, b):
     """slots that cannot be combined meaningfully"""
     pre = lambda x: x.split(".")[0] + "." + (x.split(".")[1] if "." in x else "")
+    if "alias" in (a, b):
+        o = b if a == "alias" else a
+        return o.startswith("O3") or o.startswith("PP.goal") or o == "alias"       # the shared-instance specs are not plain shape lists
     if a.startswith("O31.traj") and b.startswith("O31.traj"):
         return ("cls" in a or "len" in a or "cls" in b or "len" in b) and a != b
     if a.startswith("PP.goal") and b.startswith("PP.goal"):
